@@ -111,6 +111,13 @@ class M:
                 return True
         return False
 
+    def falsy(self, pred):
+        for tags, f in self.facts:
+            n = self.T.node(f)
+            if n[0] == 'falsy' and pred(self.T.node(n[1]), n[1]):
+                return True
+        return False
+
     def eq_polys(self):
         out = []
         for tags, f in self.facts:
@@ -220,6 +227,9 @@ def run(ctx):
                 Kused = Kdiv
             clause('form', okf, 'p = kq + 1')
             okc = any(m.eq(T.int(1), T.mk('gcd', *sorted((q, K)))) for K in Ks)
+            if not okc and row.get('prime_q'):
+                # for a prime q: gcd(q, k) = 1 iff q does not divide k
+                okc = any(m.falsy(lambda n, t, K=K: n[0] == 'divisible' and n[1] == K and n[2] == q) or m.ne(T.mk('mod', K, q), T.int(0)) for K in Ks)
             clause('coprime', okc, 'gcd(q, k) = 1')
             if Kused is not None and T.op(Kused) == 'div':
                 # k is computed by a division: q != 0 must be established (C12 shares this clause)
@@ -326,15 +336,23 @@ def run(ctx):
         if fs is None:
             ctx.bad('R06b', key0 + ':accept', 'CheckElement has no accepting exit', f)
             continue
-        m = M(a, fs)
         T = a.T
         x = T.mk('param', f['params'][0]['n'])
-        p, q = m.this('p'), m.this('q')
-        cl = [('gt0', m.lt(T.int(0), x), 'a > 0'), ('ltp', m.lt(x, p), 'a < p')]
-        if kind == 'jacobi':
-            cl.append(('order', m.eq(T.int(1), T.mk('jacobi', x, p)), 'Jacobi(a, p) = 1'))
-        else:
-            cl.append(('order', m.eq(T.int(1), T.mk('powm', x, q, p)), 'a^q = 1 (mod p)'))
+        # per accepting exit: an exit reached under a = 1 owes neither a > 0 nor the order test
+        # (1^q = 1, Jacobi(1, p) = 1), it still owes a < p
+        per_exit = []
+        for n_, facts_ in a.accept_exits():
+            m = M(a, set(facts_))
+            p, q = m.this('p'), m.this('q')
+            unit = m.eq(x, T.int(1))
+            e_ = {'gt0': bool(m.lt(T.int(0), x)) or bool(unit), 'ltp': bool(m.lt(x, p))}
+            if kind == 'jacobi':
+                e_['order'] = bool(m.eq(T.int(1), T.mk('jacobi', x, p))) or bool(unit)
+            else:
+                e_['order'] = bool(m.eq(T.int(1), T.mk('powm', x, q, p))) or bool(unit)
+            per_exit.append(e_)
+        cl = [('gt0', all(e_['gt0'] for e_ in per_exit), 'a > 0'), ('ltp', all(e_['ltp'] for e_ in per_exit), 'a < p'),
+              ('order', all(e_['order'] for e_ in per_exit), 'Jacobi(a, p) = 1' if kind == 'jacobi' else 'a^q = 1 (mod p)')]
         for name, okv, what in cl:
             n_el += 1
             matrix.setdefault(cls + '::CheckElement', {})[name] = bool(okv)
